@@ -17,3 +17,14 @@ mod ts_config;
 
 pub use file_system_state::FileSystemState;
 pub use generate_artifacts::get_artifact_path_and_content;
+
+/// Verification hooks: the exact text the compiler emits for an argument list.
+#[cfg(feature = "isographlabs_isograph_verif")]
+pub mod verif {
+    pub fn get_serialized_field_arguments(
+        arguments: &[isograph_lang_types::ArgumentKeyAndValue],
+        indentation_level: u8,
+    ) -> String {
+        crate::generate_artifacts::get_serialized_field_arguments(arguments, indentation_level)
+    }
+}
